@@ -101,6 +101,10 @@ func (backRR *BackendRR) updateSlowStart() bool {
 		} else {
 			backRR.weight = backRR.weightSS.final
 		}
+		// keep weight at least 1, to avoid no traffic allowed at the beginning of slow-start
+		if backRR.weight < 1 {
+			backRR.weight = 1
+		}
 		if backRR.weight >= backRR.weightSS.final {
 			backRR.weight = backRR.weightSS.final
 			backRR.inSlowStart = false
